@@ -882,103 +882,103 @@ func firstSendOrSelect(fn *ssa.Function) ssa.Instruction {
 func lexerTagsProvenance(c *Ctx, r *Rule) {
 	w := c.W
 
-		n := 0
-		for _, fn := range pkgFuncs(w, lexPkg) {
-			for _, st := range fieldStores(fn, "Lexer", "tags") {
-				n++
-				key := "tags-store:" + FuncName(fn)
-				ok := false
-				desc := pathOf(st.Val)
-				switch v := st.Val.(type) {
-				case *ssa.Const:
-					ok = v.Value == nil
-				case *ssa.UnOp:
-					ok = pathOf(v) == "l.m.Tags"
-					if ok {
-						// l.m must be the metric just taken from the pool in this function
-						ok = false
-						for _, s2 := range fieldStores(fn, "Lexer", "m") {
-							if cl, isC := s2.Val.(*ssa.Call); isC && isCall(cl, "(*internal/pool.MetricPool).Get") && instrDominates(s2, st) {
-								ok = true
-							}
-						}
-					}
-				case *ssa.Call:
-					ok = isCall(v, "builtin append") && pathOf(v.Call.Args[0]) == "l.tags"
-				}
-				r.Check(key, ok, st.Pos(), "l.tags <- "+desc+" (a re-sliced old buffer would alias the previous line's tags)")
-			}
-			for _, T := range []string{"Metric", "Event"} {
-				for _, st := range fieldStores(fn, T, "Tags") {
-					r.Check("output-tags:"+FuncName(fn)+":"+T, pathOf(st.Val) == "l.tags", st.Pos(), T+".Tags <- "+pathOf(st.Val))
-				}
-			}
-		}
-		r.Check("tags-store-sites", n >= 3, token.NoPos, fmt.Sprintf("%d stores to l.tags", n))
-		// pooled metrics: Reset keeps only the tag buffer (length 0); Get resets reused metrics
-		mr := w.Func("", "(*Metric).Reset")
-		if mr != nil {
+	n := 0
+	for _, fn := range pkgFuncs(w, lexPkg) {
+		for _, st := range fieldStores(fn, "Lexer", "tags") {
+			n++
+			key := "tags-store:" + FuncName(fn)
 			ok := false
-			for _, st := range fieldStores(mr, "Metric", "Tags") {
-				if sl, isS := st.Val.(*ssa.Slice); isS {
-					if hi, isC := constInt(sl.High); isC && hi == 0 {
-						ok = true
+			desc := pathOf(st.Val)
+			switch v := st.Val.(type) {
+			case *ssa.Const:
+				ok = v.Value == nil
+			case *ssa.UnOp:
+				ok = pathOf(v) == "l.m.Tags"
+				if ok {
+					// l.m must be the metric just taken from the pool in this function
+					ok = false
+					for _, s2 := range fieldStores(fn, "Lexer", "m") {
+						if cl, isC := s2.Val.(*ssa.Call); isC && isCall(cl, "(*internal/pool.MetricPool).Get") && instrDominates(s2, st) {
+							ok = true
+						}
 					}
 				}
+			case *ssa.Call:
+				ok = isCall(v, "builtin append") && pathOf(v.Call.Args[0]) == "l.tags"
 			}
-			r.Check("Metric.Reset:tags-truncated", ok, mr.Pos(), "Reset truncates Tags to length 0")
-			// every other field (except the release hook) is set to its initial value: a recycled metric
-			// carries nothing of the line it was used for before (the parser relies on that, e.g. it sets
-			// Source only when there is something to set)
-			if nm := namedOf(derefType(mr.Params[0].Type())); nm != nil {
-				if st, isSt := nm.Underlying().(*types.Struct); isSt {
-					for i := 0; i < st.NumFields(); i++ {
-						f := st.Field(i).Name()
-						if f == "Tags" || f == "DoneFunc" {
-							continue
-						}
-						okF := false
-						for _, s2 := range fieldStores(mr, "Metric", f) {
-							switch v := s2.Val.(type) {
-							case *ssa.Const:
-								zero := v.Value == nil || v.Value.ExactString() == "0" || v.Value.ExactString() == `""` || v.Value.ExactString() == "false"
-								if zero || (f == "Rate" && v.Value.ExactString() == "1") {
-									okF = true
-								}
-							}
-						}
-						r.Check("Metric.Reset:clears:"+f, okF, mr.Pos(), "Reset sets "+f+" to its initial value")
-					}
-				}
-			}
+			r.Check(key, ok, st.Pos(), "l.tags <- "+desc+" (a re-sliced old buffer would alias the previous line's tags)")
 		}
-		// the pool hands out a metric only after it was reset (recycled) or set up (new)
-		if get := w.Func("internal/pool", "(*MetricPool).Get"); get != nil && mr != nil {
-			res := runAutomaton(get, 0, func(in ssa.Instruction) int {
-				if cl, ok := in.(ssa.CallInstruction); ok && staticCallee(cl) == mr {
-					return 0
-				}
-				if st, ok := in.(*ssa.Store); ok {
-					if _, f, _, ok := fieldRef(st.Addr); ok && f == "DoneFunc" {
-						return 0
-					}
-				}
-				return -1
-			}, func(st, ev int) int { return 1 })
-			var m uint32
-			for _, s2 := range res.ExitStates {
-				m |= s2
+		for _, T := range []string{"Metric", "Event"} {
+			for _, st := range fieldStores(fn, T, "Tags") {
+				r.Check("output-tags:"+FuncName(fn)+":"+T, pathOf(st.Val) == "l.tags", st.Pos(), T+".Tags <- "+pathOf(st.Val))
 			}
-			r.Check("MetricPool.Get:reset-or-new", m == 2, get.Pos(), "every metric handed out was reset (recycled) or had its release hook installed (new)")
-			// and the recycled side is the one that resets
-			okSide := false
-			for _, cl := range callsIn(get) {
-				if staticCallee(cl) == mr && knownNonNil(factsAt(cl.Block()), func(v ssa.Value) bool { return strings.HasSuffix(pathOf(v), ".DoneFunc") }) {
-					okSide = true
-				}
-			}
-			r.Check("MetricPool.Get:recycled-is-reset", okSide, get.Pos(), "a metric whose release hook is already set (a recycled one) goes through Reset")
-		} else {
-			r.Unresolved("(*MetricPool).Get / (*Metric).Reset")
 		}
 	}
+	r.Check("tags-store-sites", n >= 3, token.NoPos, fmt.Sprintf("%d stores to l.tags", n))
+	// pooled metrics: Reset keeps only the tag buffer (length 0); Get resets reused metrics
+	mr := w.Func("", "(*Metric).Reset")
+	if mr != nil {
+		ok := false
+		for _, st := range fieldStores(mr, "Metric", "Tags") {
+			if sl, isS := st.Val.(*ssa.Slice); isS {
+				if hi, isC := constInt(sl.High); isC && hi == 0 {
+					ok = true
+				}
+			}
+		}
+		r.Check("Metric.Reset:tags-truncated", ok, mr.Pos(), "Reset truncates Tags to length 0")
+		// every other field (except the release hook) is set to its initial value: a recycled metric
+		// carries nothing of the line it was used for before (the parser relies on that, e.g. it sets
+		// Source only when there is something to set)
+		if nm := namedOf(derefType(mr.Params[0].Type())); nm != nil {
+			if st, isSt := nm.Underlying().(*types.Struct); isSt {
+				for i := 0; i < st.NumFields(); i++ {
+					f := st.Field(i).Name()
+					if f == "Tags" || f == "DoneFunc" {
+						continue
+					}
+					okF := false
+					for _, s2 := range fieldStores(mr, "Metric", f) {
+						switch v := s2.Val.(type) {
+						case *ssa.Const:
+							zero := v.Value == nil || v.Value.ExactString() == "0" || v.Value.ExactString() == `""` || v.Value.ExactString() == "false"
+							if zero || (f == "Rate" && v.Value.ExactString() == "1") {
+								okF = true
+							}
+						}
+					}
+					r.Check("Metric.Reset:clears:"+f, okF, mr.Pos(), "Reset sets "+f+" to its initial value")
+				}
+			}
+		}
+	}
+	// the pool hands out a metric only after it was reset (recycled) or set up (new)
+	if get := w.Func("internal/pool", "(*MetricPool).Get"); get != nil && mr != nil {
+		res := runAutomaton(get, 0, func(in ssa.Instruction) int {
+			if cl, ok := in.(ssa.CallInstruction); ok && staticCallee(cl) == mr {
+				return 0
+			}
+			if st, ok := in.(*ssa.Store); ok {
+				if _, f, _, ok := fieldRef(st.Addr); ok && f == "DoneFunc" {
+					return 0
+				}
+			}
+			return -1
+		}, func(st, ev int) int { return 1 })
+		var m uint32
+		for _, s2 := range res.ExitStates {
+			m |= s2
+		}
+		r.Check("MetricPool.Get:reset-or-new", m == 2, get.Pos(), "every metric handed out was reset (recycled) or had its release hook installed (new)")
+		// and the recycled side is the one that resets
+		okSide := false
+		for _, cl := range callsIn(get) {
+			if staticCallee(cl) == mr && knownNonNil(factsAt(cl.Block()), func(v ssa.Value) bool { return strings.HasSuffix(pathOf(v), ".DoneFunc") }) {
+				okSide = true
+			}
+		}
+		r.Check("MetricPool.Get:recycled-is-reset", okSide, get.Pos(), "a metric whose release hook is already set (a recycled one) goes through Reset")
+	} else {
+		r.Unresolved("(*MetricPool).Get / (*Metric).Reset")
+	}
+}
